@@ -17,7 +17,7 @@ ASSUMPTIONS = ['spectra compared through a dense symmetric-definite solver on th
                'cone(0)=cylinder tolerance 1e-9 of max|entry| (41-section sums of sub-interval integrals), others 1e-11']
 LAMS = ['general', 'cross_sym', 'cross_unsym', 'uni0']
 FBS = ['SSSS', 'CCCC', 'CFFF', 'generic']
-ORDS = [(3, 4), (5, 5)]
+ORDS = [(3, 4), (5, 5), (9, 9)]
 CC_ORD = (6, 7)
 TRIPLES = [(-1.0, 0.0, 0.0), (-0.3, -0.7, 0.0), (-0.3, -0.7, 0.45)]
 
@@ -27,6 +27,8 @@ def cases(tier, seed):
     for kind in ('cone0', 'bigr', 'wonly', 'numeric', 'exchange', 'similarity'):
         for lam, fb, (m, n) in itertools.product(LAMS, FBS, ORDS):
             if tier == 'quick' and (m, n) == (5, 5) and (lam not in ('general', 'cross_sym') or fb in ('CFFF',)):
+                continue
+            if (m, n) == (9, 9) and (kind != 'similarity' or lam != 'cross_sym' or fb != 'SSSS'):
                 continue
             if kind in ('exchange', 'similarity'):
                 if fb == 'generic' or (fb == 'CCCC' and (m, n) != (5, 5)):
@@ -54,6 +56,14 @@ def spectra(p, tri, nev=4):
 
 
 def check_case(case):
+    try:
+        return _check_case(case)
+    except np.linalg.LinAlgError as e:
+        return dict(fails=[fail('a description of the structure yields a mass/stiffness matrix that is not positive definite (eigen-solver failed)',
+                                sig=None, case=case, error=repr(e)[:200])], nontrivial=1)
+
+
+def _check_case(case):
     seed = case['seed']
     if case['fbase'] == 'CCCC' and case['kind'] in ('exchange', 'similarity'):
         case = dict(case, m=CC_ORD[0], n=CC_ORD[1])
@@ -100,15 +110,16 @@ def check_case(case):
             if blk.shape != B[nm].shape or np.abs(blk - B[nm]).max() > 1e-12 * sc:
                 fails.append(fail('w-only plate model differs from the out-of-plane block of the full plate model (%s)' % nm, sig=None, case=case))
     elif kind == 'numeric':
-        for model in ('plate', 'cpanel'):
+        for model, ortho in (('plate', 0), ('cpanel', 0), ('plate', 1), ('cpanel', 1)):
             p = pan.make_panel(dict(base, model=model, r=1.5))
+            p.force_orthotropic_laminate = bool(ortho)
             K = pan.dense(p.calc_k0(silent=True))
             nx, ny = case['m'] + 4, case['n'] + 4
             c0 = np.zeros(3 * case['m'] * case['n'])
             for lbl, kw in (('c=0', dict(c=c0)), ('Fnxny only', dict(Fnxny=np.array(p.F))), ('c=0,NLgeom', dict(c=c0, NLgeom=True))):
                 Kn = pan.dense(p.calc_k0(silent=True, nx=nx, ny=ny, **kw))
                 if np.abs(Kn - K).max() > 1e-10 * np.abs(K).max():
-                    fails.append(fail('numerically integrated k0 at the undeformed state differs from the analytic one (%s, %s)' % (model, lbl),
+                    fails.append(fail('numerically integrated k0 at the undeformed state differs from the analytic one (%s, %s)' % (model + (', forced orthotropic' if ortho else ''), lbl),
                                       sig=None, case=case, rel=float(np.abs(Kn - K).max() / np.abs(K).max())))
             G0 = pan.dense(p.calc_kG0(c=c0, nx=nx, ny=ny, silent=True))
             if np.abs(G0).max() != 0:
@@ -139,7 +150,7 @@ def check_case(case):
         fl = pan.flags_of(base)
         p1 = Panel(a=0.6, b=0.4, stack=stack, plyt=pan.PLYT, laminaprop=mat, m=case['m'], n=case['n'], mu=1500., **fl)
         w1, l1 = spectra(p1, tri)
-        for (s, e, q) in ((2.0, 0.5, 3.7), (0.5, 3.7, 2.0), (3.7, 2.0, 0.5)):
+        for (s, e, q) in ((2.0, 0.5, 3.7), (0.5, 3.7, 2.0), (3.7, 2.0, 0.5), (0.1, 1.0, 1.0e-3), (1.0e3, 1.0e-6, 1.0e-12)):
             m2 = (mat[0] * e, mat[1] * e, mat[2], mat[3] * e, mat[4] * e, mat[5] * e)
             p2 = Panel(a=0.6 * s, b=0.4 * s, stack=stack, plyt=pan.PLYT * s, laminaprop=m2, m=case['m'], n=case['n'], mu=1500. * q, **fl)
             w2, l2 = spectra(p2, tri)
